@@ -366,9 +366,11 @@ type tkWorld struct {
 	sigBody     map[string][]byte // per instance: first bad-signature response of the case (uniformity oracle)
 	sigDesc     map[string]string
 	lastPair    string              // outcome of the previous cont line (for pair=1)
+	tight       bool                // the current request is phase-controlled: lifetime oracles use a 100 ms margin
 	lastSeen    string              // what the exchange handler received on the previous cont line
 	callStream  map[string]string   // callID -> stream id its call token carries
 	streamOwner map[string]string   // hex(stream id) -> identity it was minted for
+	streamMeth  map[string]string   // hex(stream id) -> method whose /init minted it
 	warm        map[string][]string // instance|callID -> identities that legitimately warmed a cache entry there
 }
 
@@ -878,7 +880,7 @@ func tkExecProp(prop string) func(c *Case) {
 	return func(c *Case) {
 		w := &tkWorld{c: c, prop: prop, insts: map[string]*tkInst{}, slots: map[string]*tkSlot{}, streams: map[string]bool{},
 			sigBody: map[string][]byte{}, sigDesc: map[string]string{}, warm: map[string][]string{},
-			callStream: map[string]string{}, streamOwner: map[string]string{}}
+			callStream: map[string]string{}, streamOwner: map[string]string{}, streamMeth: map[string]string{}}
 		tkCur = w
 		defer func() { tkCur = nil }()
 		for _, l := range c.Lines {
@@ -911,6 +913,18 @@ func (w *tkWorld) line(l string, f []string) {
 		c.Out(l, X(vgirpc.VerifC12NormalizeKey(MustUnX(f[1]))))
 	case "advance":
 		w.advance(l, f)
+	case "phase":
+		// wait (at most one second) until the wall clock is <ms> into its current second: with whole-second
+		// CreatedAt values this is what makes sub-second token ages expressible
+		target, _ := strconv.Atoi(f[1])
+		for i := 0; i < 2500; i++ {
+			if ms := int(time.Now().UnixMilli() % 1000); ms >= target && ms < target+50 {
+				break
+			}
+			time.Sleep(time.Millisecond)
+		}
+		c.Out("advance 0", "ok")
+		c.Stat("phase")
 	case "setttl", "setcache":
 		in := w.insts[f[1]]
 		if in == nil || len(f) < 3 {
@@ -1087,6 +1101,7 @@ func (w *tkWorld) opInit(l string, f []string, kv map[string]string) {
 	w.streams[kstream] = true
 	w.callStream[kcid] = kstream
 	w.streamOwner[hex.EncodeToString([]byte(kstream))] = ident
+	w.streamMeth[hex.EncodeToString([]byte(kstream))] = method
 	w.warm[in.name+"|"+kcid] = append(w.warm[in.name+"|"+kcid], ident)
 	w.mintBinding(in, "cursor", ident, cur, l)
 	w.mintBinding(in, "call", ident, call, l)
@@ -1234,6 +1249,22 @@ func (w *tkWorld) opCont(l string, f []string, kv map[string]string) {
 		}
 	}
 	obs := fmt.Sprintf("%s %s ev=%s next=%s", tkStatus(r), tkDecision(r), events, next)
+	tight := kv["tight"] == "1"
+	if tight {
+		// sub-second timing: if the TTL boundary of either token falls between the harness's clock reading and
+		// the end of the request (plus slack), the server's own reading may be on either side — not compared
+		after := w.nowVirtMs()
+		for _, b := range []*tkSlot{curBase, callBase} {
+			if b != nil && (b.kind == "cursor" || b.kind == "call") {
+				edge := b.vcreat*1000 + in.ttlMs
+				if edge >= now-30 && edge <= after+30 {
+					c.Out("advance 0", "ok")
+					c.Stat("timing-ambiguous")
+					return
+				}
+			}
+		}
+	}
 	ml := fmt.Sprintf("cont %s %s %s cur=%s call=%s cancel=%s sess=%s now=%d", f[1], ident, method,
 		tkOpt(ptrCur, ptrCurPresent), tkOpt(ptrCall, ptrCallPresent), map[bool]string{true: "1", false: "0"}[cancel], tkOpt(sess, sessPresent), now)
 	if ptr {
@@ -1261,6 +1292,9 @@ func (w *tkWorld) opCont(l string, f []string, kv map[string]string) {
 						}
 						w.oracle("C13", class, fmt.Sprintf("%q: cursor names call %s (stream %s) but the dispatch hook saw stream %s (minted for %q)", l, curBase.callID, want, got, owner))
 						w.oracle("C15", "cache-changes-handler-input", fmt.Sprintf("%q: cursor names call %s (stream %s) but the dispatch hook saw stream %s", l, curBase.callID, want, got))
+						if m := w.streamMeth[got]; m != "" && m != method {
+							w.oracle("C14", "call-state-of-another-method-served", fmt.Sprintf("%q: route %s was handed the resolved call of a stream minted by %s (stream %s instead of %s)", l, method, m, got, want))
+						}
 					}
 				}
 			}
@@ -1285,6 +1319,7 @@ func (w *tkWorld) opCont(l string, f []string, kv map[string]string) {
 	if accepted && curBase != nil && curBase.kind == "cursor" {
 		w.warm[in.name+"|"+curBase.callID] = append(w.warm[in.name+"|"+curBase.callID], ident)
 	}
+	w.tight = tight
 	w.contOracles(l, in, ident, method, r, cls, accepted, cacheHit, cur, curBase, curAlt, curPresent, call, callBase, callAlt, callPresent, now)
 	seen := ""
 	for _, e := range w.events {
@@ -1451,13 +1486,17 @@ func (w *tkWorld) contOracles(l string, in *tkInst, ident, method string, r tkRe
 	}
 
 	// ---- C15: lifetime
-	if curGenuine && now-curBase.vcreat*1000 > ttl+1500 {
+	margin := int64(1500)
+	if w.tight {
+		margin = 100
+	}
+	if curGenuine && now-curBase.vcreat*1000 > ttl+margin {
 		c.Stat("c15-cursor-expired")
 		if accepted || ranCode {
 			w.oracle("C15", "expired-cursor-accepted", fmt.Sprintf("%q: cursor is %d ms old, ttl %d ms, answered %s %s", l, now-curBase.vcreat*1000, ttl, tkStatus(r), cls))
 		}
 	}
-	if curGenuine && callGenuine && !callAlt && callBase.callID == curBase.callID && now-callBase.vcreat*1000 > ttl+1500 {
+	if curGenuine && callGenuine && !callAlt && callBase.callID == curBase.callID && now-callBase.vcreat*1000 > ttl+margin {
 		c.Stat("c15-call-expired")
 		if accepted || ranCode {
 			class := "expired-call-token-accepted"
